@@ -1,6 +1,7 @@
 package c16
 
 import (
+	"bytes"
 	"fmt"
 	"math/rand"
 	"regexp"
@@ -398,8 +399,9 @@ func genNCScript(seed int64, version string) ncScript {
 
 // server builds the NETCONF server model. paced: every reply is sent in two halves 80 ms apart (a
 // slow device).
-func (s ncScript) server(paced ...bool) *ncsim.Server {
+func (s ncScript) server(paced ...bool) (*ncsim.Server, *sentLog) {
 	slow := len(paced) > 0 && paced[0]
+	sent := &sentLog{m: map[int][]byte{}}
 	caps := []string{ncsim.Cap10}
 	if s.Version == "1.1" {
 		caps = append(caps, ncsim.Cap11)
@@ -425,6 +427,9 @@ func (s ncScript) server(paced ...bool) *ncsim.Server {
 			sortInts(cuts)
 			sizes = partition(len(p), cuts)
 		}
+		if sv.Version == "1.1" {
+			sent.put(m.ID, ncwire.EncodeChunked(p, sizes))
+		}
 		if !slow || sv.Version != "1.1" {
 			sv.Send(c, p, sizes)
 			if slow {
@@ -441,7 +446,131 @@ func (s ncScript) server(paced ...bool) *ncsim.Server {
 			c.Do(func() { c.Emit(rest); c.Mark() })
 		}()
 	}
-	return srv
+	return srv, sent
+}
+
+// sentLog keeps the framed 1.1 replies the server model sent, by message-id.
+type sentLog struct {
+	mu sync.Mutex
+	m  map[int][]byte
+}
+
+func (l *sentLog) put(id int, b []byte) {
+	l.mu.Lock()
+	l.m[id] = b
+	l.mu.Unlock()
+}
+
+func (l *sentLog) get(id int) []byte {
+	l.mu.Lock()
+	defer l.mu.Unlock()
+	return l.m[id]
+}
+
+// strayLF reports whether `read` (what the client's channel read, CR removed) contains the framed
+// reply `sent` with exactly one extra LF inserted, and at which offset of `sent`. That is the tty's
+// echo of the driver's trailing return landing inside the reply.
+func strayLF(read, sent []byte) (bool, int) {
+	if len(sent) < 24 {
+		return false, 0
+	}
+	tail := sent[len(sent)-12:]
+	e := bytes.LastIndex(read, tail)
+	if e >= 0 { // walk backwards from the intact tail
+		ri, si, skipped, at := e+len(tail)-1, len(sent)-1, 0, -1
+		for si >= 0 && ri >= 0 {
+			if read[ri] == sent[si] {
+				ri--
+				si--
+				continue
+			}
+			if read[ri] == '\n' && skipped == 0 {
+				skipped, at = 1, si+1
+				ri--
+				continue
+			}
+			return false, 0
+		}
+		if si < 0 && skipped == 1 {
+			return true, at
+		}
+		return false, 0
+	}
+	head := sent[:12]
+	b := bytes.LastIndex(read, head)
+	if b < 0 {
+		return false, 0
+	}
+	ri, si, skipped, at := b, 0, 0, -1
+	for si < len(sent) && ri < len(read) {
+		if read[ri] == sent[si] {
+			ri++
+			si++
+			continue
+		}
+		if read[ri] == '\n' && skipped == 0 {
+			skipped, at = 1, si
+			ri++
+			continue
+		}
+		return false, 0
+	}
+	return si == len(sent) && skipped == 1, at
+}
+
+var rpcErrRe = regexp.MustCompile(`^rpc (\d+) \(`)
+
+// echoTimeout recognises the known tty-echo defect when it shows up as a TIMEOUT: NETCONF 1.1 over
+// the system transport, rpc i timed out, and what the client read contains the complete reply to
+// rpc i with exactly one stray LF that sits inside the message-id="N" attribute (the driver cannot
+// attribute the reply and drops it) or inside the end-of-chunks marker (the reply never completes).
+func echoTimeout(d Desc, got *ncOutcome, sent *sentLog) (bool, string) {
+	if d.T != "system-ssh" || d.Version != "1.1" || !strings.Contains(got.Err, "errTimeoutError") {
+		return false, ""
+	}
+	m := rpcErrRe.FindStringSubmatch(got.Err)
+	if m == nil {
+		return false, ""
+	}
+	var i int
+	fmt.Sscan(m[1], &i)
+	id := 101 + i
+	f := sent.get(id)
+	if f == nil {
+		return false, ""
+	}
+	ok, at := strayLF(got.ClientRead, f)
+	if !ok {
+		return false, ""
+	}
+	attr := []byte(fmt.Sprintf(`message-id="%d"`, id))
+	// the attribute may itself be cut by chunk headers in the framed bytes: locate it in the payload
+	// coordinates is not needed - the driver looks for it in the raw bytes (after removing chunk
+	// headers), so any LF between the first and last byte of the attribute's raw span breaks it
+	a := bytes.Index(f, attr[:9]) // message-i… start (best effort when chunk headers cut the attribute)
+	inAttr := false
+	if j := bytes.Index(f, attr); j >= 0 {
+		inAttr = at > j && at < j+len(attr)
+	} else if a >= 0 {
+		inAttr = at > a && at < a+len(attr)+24
+	}
+	inEnd := at > len(f)-4 && at < len(f)
+	if !inAttr && !inEnd {
+		return false, ""
+	}
+	lo, hi := at-30, at+30
+	if lo < 0 {
+		lo = 0
+	}
+	if hi > len(f) {
+		hi = len(f)
+	}
+	where := "inside the message-id attribute, so the reply cannot be attributed to its request and is dropped"
+	if inEnd {
+		where = "inside the end-of-chunks marker, so the reply never completes"
+	}
+	return true, fmt.Sprintf("rpc %d timed out although its complete reply (%d bytes) reached the client: the tty echo of the driver's trailing return landed at offset %d of the framed reply, %s: …%q<LF>%q…",
+		i, len(f), at, where, f[lo:at], f[at:hi])
 }
 
 func min(a, b int) int {
@@ -482,6 +611,8 @@ type ncOutcome struct {
 	Msgs    []string // payloads the server decoded
 	Proto   string
 	Raw     []string // RawResult per rpc (diagnosis only, not compared)
+	// ClientRead is everything the channel read from the real transport (diagnosis only)
+	ClientRead []byte
 }
 
 func closeNC(d *netconf.Driver) {
@@ -563,7 +694,7 @@ func runE2ENC(d Desc) mon.Result {
 	}
 	var ref ncOutcome
 	{
-		srv := s.server(d.Paced)
+		srv, _ := s.server(d.Paced)
 		conn := devsim.NewConn(srv, devsim.Config{Seg: devsim.Seg{Mode: "whole"}})
 		nd, err := netconf.NewDriver("ideal", append(append(baseOpts(d.ReadSize), options.WithCustomTransport(conn)), extra...)...)
 		if err != nil {
@@ -578,7 +709,7 @@ func runE2ENC(d Desc) mon.Result {
 	}
 	atomic.AddInt64(&ncSeq, 1)
 	var got ncOutcome
-	model := s.server(d.Paced)
+	model, sent := s.server(d.Paced)
 	var sv *sshsim.Served
 	var smu sync.Mutex
 	srv, e := sshsim.NewServer()
@@ -603,12 +734,14 @@ func runE2ENC(d Desc) mon.Result {
 	if d.T == "system-ssh" {
 		tt = transport.SystemTransport
 	}
+	clog := &chanLog{} // everything the channel read from the transport (CR already removed)
 	nd, err := netconf.NewDriver("127.0.0.1", append(append(baseOpts(d.ReadSize), options.WithTransportType(tt), options.WithPort(srv.Port()),
-		options.WithAuthUsername(sshUser), options.WithAuthPassword(sshPw), options.WithAuthNoStrictKey()), extra...)...)
+		options.WithAuthUsername(sshUser), options.WithAuthPassword(sshPw), options.WithAuthNoStrictKey(), options.WithChannelLog(clog)), extra...)...)
 	if err != nil {
 		return mon.Result{Verdict: mon.Inconclusive, Detail: "harness: NewDriver: " + err.Error()}
 	}
 	driveNC(s, nd, &got)
+	got.ClientRead = clog.bytes()
 	sshsim.ReapPid(sshsim.SystemPid(nd.Transport.Impl), true, 5*time.Second)
 	smu.Lock()
 	if sv != nil {
@@ -618,6 +751,17 @@ func runE2ENC(d Desc) mon.Result {
 	smu.Unlock()
 	if w, ok := wrongSession.Load().(string); ok && got.Err != "" {
 		got.Err += " (server saw " + w + " instead of the netconf subsystem)"
+	}
+	if got.Err != "" {
+		if ok, why := echoTimeout(d, &got, sent); ok {
+			return mon.Result{Verdict: mon.Violated, Key: "c16/e2e/netconf/system-ssh:tty-echo-of-trailing-return-inside-reply", NonTrivial: true,
+				Detail: fmt.Sprintf("system-ssh 1.1 rs=%d seed=%d: %s (%s)", d.ReadSize, d.Seed, why, got.Err)}
+		}
+		t := got.ClientRead
+		if len(t) > 400 {
+			t = t[len(t)-400:]
+		}
+		got.Err += fmt.Sprintf(" | the client's channel had read %d bytes, last: %q", len(got.ClientRead), t)
 	}
 	if got.Err == "" && got.Proto != "" {
 		got.Err = "the server could not decode what it received: " + got.Proto
@@ -671,4 +815,23 @@ func explainNC(d Desc, ref, got *ncOutcome) (string, string) {
 		return sfx, msg
 	}
 	return "", ""
+}
+
+// chanLog is an io.Writer for options.WithChannelLog.
+type chanLog struct {
+	mu sync.Mutex
+	b  []byte
+}
+
+func (c *chanLog) Write(p []byte) (int, error) {
+	c.mu.Lock()
+	c.b = append(c.b, p...)
+	c.mu.Unlock()
+	return len(p), nil
+}
+
+func (c *chanLog) bytes() []byte {
+	c.mu.Lock()
+	defer c.mu.Unlock()
+	return append([]byte(nil), c.b...)
 }
